@@ -25,7 +25,7 @@ theorem prefix_eq_of_sep {x : Char} : ∀ {a a' r r' : List Char}, x ∉ a → x
     rw [h.1, prefix_eq_of_sep (fun hm => ha (List.mem_cons_of_mem _ hm))
       (fun hm => ha' (List.mem_cons_of_mem _ hm)) h.2]
 
-theorem toListPath_toList (b : String) (i : Nat) :
+theorem toListPath_chars (b : String) (i : Nat) :
     (toListPath b i).toList = b.toList ++ '[' :: ((toString i).toList ++ [']']) := by
   simp [toListPath, String.toList_append]
 
@@ -39,7 +39,7 @@ theorem idx_eq_of_under {b s : String} {i j : Nat}
     (h1 : Under (toListPath b i) s) (h2 : Under (toListPath b j) s) : i = j := by
   obtain ⟨r, e, _⟩ := h1
   obtain ⟨r', e', _⟩ := h2
-  rw [e, toListPath_toList, toListPath_toList] at e'
+  rw [e, toListPath_chars, toListPath_chars] at e'
   simp only [List.append_assoc, List.cons_append, List.nil_append] at e'
   have e2 := List.append_cancel_left e'
   simp only [List.cons.injEq, true_and] at e2
@@ -56,7 +56,7 @@ theorem ne_of_toList_append_cons {b s : String} {c : Char} {t : List Char}
 
 theorem ne_of_under_toListPath {b s : String} {i : Nat} (h : Under (toListPath b i) s) : s ≠ b := by
   obtain ⟨r, e, _⟩ := h
-  rw [toListPath_toList] at e
+  rw [toListPath_chars] at e
   simp only [List.append_assoc, List.cons_append] at e
   exact ne_of_toList_append_cons e
 
